@@ -239,7 +239,11 @@ class MailboxData(MailboxDataInterface[Message]):
 
     @classmethod
     def _get_object_id(cls, rec: Record, field: str) -> ObjectId | None:
-        return ObjectId.maybe(rec.fields.get(field))
+        value = rec.fields.get(field)
+        if value and value.startswith('(') and value.endswith(')'):
+            # the records hold str(object_id), which is parenthesised
+            value = value[1:-1]
+        return ObjectId.maybe(value)
 
     @property
     def mailbox_id(self) -> ObjectId:
